@@ -1,0 +1,18 @@
+// Copyright (c) The Thanos Community Authors.
+// Licensed under the Apache License 2.0.
+
+//go:build verif
+
+// Package verifhook provides named yield points used by runtime verification.
+// Without the `verif` build tag every call is an inlinable no-op.
+package verifhook
+
+// Callback, when set (before any query runs), is invoked at every Point.
+var Callback func(site string, id int)
+
+// Point marks a goroutine hand-off site.
+func Point(site string, id int) {
+	if cb := Callback; cb != nil {
+		cb(site, id)
+	}
+}
